@@ -14,6 +14,12 @@ HT = {"tspec": "HandleTrace.tla", "tcfg": "HandleTrace.cfg"}
 SIM = ["-simulate", "num={N}", "-depth", "8", "-seed", "{SEED}"]
 
 
+def robs_tight(d, i):
+    # the mirror's size limit is exactly the largest size the collection reaches: never exceeded, so the mirror must not fail
+    d["max_size"] = max(1, d.get("tight", 1000))
+    return d
+
+
 def robs_remote(d, i):
     d["remote"] = d["coll"] != "list"
     d["seed"] = i + 1
@@ -78,6 +84,10 @@ CHECKS = {
                 "cancelled operation or a port batch",
         "assumptions": ["liveness judged at quiescence of a healthy transport (all frames delivered, receivers waiting)"],
         "legs": [
+            # a send waiting for credit is abandoned, another one waits, a single credit return arrives: the waiter must be woken
+            dict(CT, kind="trace", name="wake", workload="wake", n=(80, 1200), opts={}, require={r'"ev":"api_cancel"': 80, r'"res":"data"': 80}, nontrivial=[r'"ev":"api_cancel"']),
+            # many zero-length messages through a small window: every one costs a credit that has to come back
+            data_leg("data_empty", (80, 1500), {"sends": 24, "len_factor": 0, "cancel": 0, "ports": 0}, require={r'"data":\[\]': 800}, nontrivial=[r'"data":\[\]']),
             model("ChmuxData_MC_small.cfg", min_states=100000),
             model("ChmuxData_MC_ports.cfg", min_states=10000),
             model("ChmuxData_MC_rbuf6.cfg", min_states=1000),
@@ -358,6 +368,9 @@ CHECKS = {
             dict(RT, kind="custom", fn=legs.gen_replay, name="robs_remote", gen_spec="RobsGen.tla", gen_cfg="RobsGen.cfg", depth=(3, 4),
                  gen_extra=SIM, gen_num=(200, 2000), exclude="retain_mut", augment=robs_remote, limit=(300, 5000), workload="robs_script",
                  nontrivial=[r'"evs":\[\{'], min_behaviours=200),
+            dict(RT, kind="custom", fn=legs.gen_replay, name="robs_tight", gen_spec="RobsGen.tla", gen_cfg="RobsGen.cfg", depth=(4, 5),
+                 gen_extra=SIM, gen_num=(300, 3000), exclude="retain_mut", augment=robs_tight, limit=(1500, 20000), workload="robs_script",
+                 nontrivial=[r'"evs":\[\{'], min_behaviours=500),
             dict(RT, kind="custom", fn=legs.gen_replay, name="robs_known", gen_spec="RobsGen.tla", gen_cfg="RobsGen.cfg", depth=(2, 3),
                  gen_extra=SIM, gen_num=(300, 2000), include="retain_mut", limit=(40, 400), workload="robs_script", max_rounds=3,
                  nontrivial=[r'retain_mut'], min_behaviours=5),
